@@ -468,14 +468,14 @@ func (p *Peer) serveWork(c *vnet.StreamConn) {
 		c.Close()
 		return
 	}
-	rec.Started = true
-	rec.Proxy = sw.ProxyName
-	rec.Src = fmt.Sprintf("%s:%d", sw.SrcAddr, sw.SrcPort)
 	if sw.Error != "" {
 		rec.Err = sw.Error
 		c.Close()
 		return
 	}
+	rec.Started = true
+	rec.Proxy = sw.ProxyName
+	rec.Src = fmt.Sprintf("%s:%d", sw.SrcAddr, sw.SrcPort)
 	vs.Observe("work peer=%s proxy=%s src=%s", p.Name, rec.Proxy, rec.Src)
 	if p.SidProxies[rec.Proxy] {
 		// xtcp: the work connection only carries the session id of a NAT-hole request
